@@ -147,7 +147,7 @@ def positions(p):
         ('ref-name', 'a == @%s' % p), ('ref-display', 'a == @x "%s"' % esc_str(p)), ('ref-display-raw', 'a == @x "%s"' % p),
         ('xstr-type', 'a == %s("x")' % p), ('xstr-payload', 'a == Type("%s")' % esc_str(p)), ('xstr-payload-raw', 'a == Type("%s")' % p),
         ('unit', 'a == 5%s' % p), ('zone', 'a == 2020-01-01T00:00:00Z %s' % p), ('zone-nospace', 'a == 2020-01-01T00:00:00Z%s' % p),
-        ('bin', 'a == Bin(%s)' % p), ('tag', p), ('tag-cmp', '%s == 5' % p), ('path-segment', 'a->%s' % p), ('path-head', '%s->a' % p),
+        ('bin', 'a == Bin(%s)' % p), ('tag', p), ('tag-cmp', '%s == 5' % p), ('path-segment', 'a->%s' % p), ('path-head', '%s->a' % p), ('path-third', 'a->b->%s' % p), ('path-mid', 'a->%s->b' % p),
         ('dict-key', 'a == {%s:1}' % p), ('dict-value', 'a == {k:"%s"}' % esc_str(p)), ('list-elem', 'a == [%s]' % p),
         ('list-str', 'a == ["%s"]' % esc_str(p)), ('number-suffix', 'a == 1%s' % p), ('coord', 'a == C(%s,1)' % p),
         ('not-path', 'not %s' % p),
